@@ -9,6 +9,13 @@
     code 0 = read failed (ErrNodeNotExist or a missing-node panic), 1 = key
     absent, 2+j = value [j]; and counts the database records by class.
 
+    Two kinds of case: [Case] = the node database API (mavl/db) with its own
+    TreeConfig; [SCase] = a store created by mavl.New from a sub-configuration
+    (prefix switch, prune switch, pruneHeight), driven through Store.Set /
+    MemSet+Commit / Get: the model resolves the configuration with
+    [effective_cfg] (prune forces prefix) and reads through Store.Get, which
+    returns nil for every key when the root does not load (code 1).
+
     model_agrees: statuses, root-id coincidences, record counts and every read
                   at every root (live or not) equal the model's.
     spec_holds:   the implementation's own reads at the LIVE commits (Spec.v)
@@ -71,7 +78,16 @@ Definition apply_delta (nkeys : nat) (rows : list (list N)) (delta : list N) : l
                           | [] => rs
                           end) (chunks (S nkeys) delta) rows.
 
-Inductive case := Case (ph : Z) (keys vals : list bytes) (ops : list iop).
+(** [Case]: the node database API (mavl/db) driven with the TreeConfig
+    (prefix, prune, PruneHeight [ph]).
+    [SCase]: a store created by mavl.New from the sub-configuration
+    (enableMavlPrefix [prefix], enableMavlPrune [prune], pruneHeight [ph]) and
+    driven through Store.Set / MemSet+Commit / Get: the model resolves the
+    configuration with [effective_cfg]; reads go through Store.Get (a root that
+    does not load reads "absent" for every key). *)
+Inductive case :=
+| Case (ph : Z) (keys vals : list bytes) (ops : list iop)
+| SCase (prefix prune : bool) (ph : Z) (keys vals : list bytes) (ops : list iop).
 
 Definition real_cfg (ph : Z) : cfg := mk_cfg ph 500000 1500000.
 
@@ -101,8 +117,10 @@ Definition code_agrees (vals : list bytes) (w : wres) (code : N) : bool :=
   | WFound _ v => code_of_value vals v code
   end.
 
-Definition rows_agree (d : pdb) (keys vals : list bytes) (mroots : list hash) (pr : list (list N)) : bool :=
-  all2 (fun rh row => all2 (fun k code => code_agrees vals (get_at_root d (Some rh) k) code) keys row) mroots pr.
+(** [sm] = store mode: reads through Store.Get *)
+Definition rows_agree (sm : bool) (d : pdb) (keys vals : list bytes) (mroots : list hash) (pr : list (list N)) : bool :=
+  let rd := if sm then store_get_at_root else get_at_root in
+  all2 (fun rh row => all2 (fun k code => code_agrees vals (rd d (Some rh) k) code) keys row) mroots pr.
 
 Definition model_counts (d : pdb) : cnt :=
   CN (N.of_nat (length (nodes d))) (N.of_nat (length (idx1 d))) (N.of_nat (length (idx2 d)))
@@ -220,14 +238,14 @@ Definition root_id_agrees (mroots : list hash) (r : option hash) (rid : Z) : boo
       end
   end.
 
-Definition step (ph : Z) (keys vals : list bytes) (s : cst) (o : iop) : cst :=
+Definition step (sm : bool) (ph : Z) (keys vals : list bytes) (s : cst) (o : iop) : cst :=
   let c := real_cfg ph in
   match o with
   | OR => s
   | OP cur st ct prf =>
       let pr := apply_delta (length keys) (c_rows s) prf in
       let d' := pruning_tree c cur (c_db s) in
-      let agree := (st =? 0)%N && cnt_eqb ct (model_counts d') && rows_agree d' keys vals (c_mroots s) pr in
+      let agree := (st =? 0)%N && cnt_eqb ct (model_counts d') && rows_agree sm d' keys vals (c_mroots s) pr in
       let s1 := mk_cst d' (c_ci s) (c_ac s) (c_mroots s) pr (c_agree s && agree) (c_spec s) (c_kf s) in
       let ok := (st =? 0)%N && live_reads_ok ph keys vals (c_ci s) (c_ac s) pr in
       note_spec s1 ok (classify ph keys vals (c_ci s) (c_ac s) pr)
@@ -253,13 +271,13 @@ Definition step (ph : Z) (keys vals : list bytes) (s : cst) (o : iop) : cst :=
           let cis' := c_ci s ++ [mk_cinfo r rid wrote saved h] in
           let acs' := add_commit (c_ac s) h pidx kvb in
           let agree := pvalid && (st =? 0)%N && idok && cnt_eqb ct (model_counts d') &&
-                       rows_agree d' keys vals mroots' pr in
+                       rows_agree sm d' keys vals mroots' pr in
           let s1 := mk_cst d' cis' acs' mroots' pr (c_agree s && agree) (c_spec s) (c_kf s) in
           let ok := (st =? 0)%N && live_reads_ok ph keys vals cis' acs' pr in
           note_spec s1 ok (classify ph keys vals cis' acs' pr)
       | CErr =>
           let agree := pvalid && (st =? 1)%N && cnt_eqb ct (model_counts (c_db s)) &&
-                       rows_agree (c_db s) keys vals (c_mroots s) pr in
+                       rows_agree sm (c_db s) keys vals (c_mroots s) pr in
           note_spec (set_agree (set_rows s pr) agree) (negb parent_live)
                     (classify ph keys vals (c_ci s) (c_ac s) pr)
       | CPanic =>
@@ -272,19 +290,31 @@ Definition step (ph : Z) (keys vals : list bytes) (s : cst) (o : iop) : cst :=
 
 Definition init_cst : cst := mk_cst empty_pdb [] [] [] [] true true 0%N.
 
+Definition run_case (sm : bool) (ph : Z) (keys vals : list bytes) (ops : list iop) : verdict :=
+  let s := fold_left (step sm ph keys vals) ops init_cst in
+  (c_agree s, c_spec s, c_kf s).
+
+(** the configurations the model covers: pruning on, prefixed node keys *)
+Definition model_covers (t : tree_cfg) : bool := tc_prune t && tc_prefix t.
+
 Definition check_case (c : case) : verdict :=
   match c with
-  | Case ph keys vals ops =>
-      let s := fold_left (step ph keys vals) ops init_cst in
-      (c_agree s, c_spec s, c_kf s)
+  | Case ph keys vals ops => run_case false ph keys vals ops
+  | SCase prefix prune ph keys vals ops =>
+      let t := effective_cfg (mk_sub_cfg prefix prune ph) in
+      if model_covers t then run_case true (tc_prune_height t) keys vals ops
+      else (false, true, 0%N)        (* outside the model: never generated *)
   end.
 
 (** per-operation trace (debugging aid for replays) *)
-Fixpoint trace_ops (ph : Z) (keys vals : list bytes) (s : cst) (ops : list iop) : list (bool * bool * N) :=
+Fixpoint trace_ops (sm : bool) (ph : Z) (keys vals : list bytes) (s : cst) (ops : list iop) : list (bool * bool * N) :=
   match ops with
   | [] => []
-  | o :: tl => let s' := step ph keys vals s o in (c_agree s', c_spec s', c_kf s') :: trace_ops ph keys vals s' tl
+  | o :: tl => let s' := step sm ph keys vals s o in (c_agree s', c_spec s', c_kf s') :: trace_ops sm ph keys vals s' tl
   end.
 
 Definition trace_case (c : case) : list (bool * bool * N) :=
-  match c with Case ph keys vals ops => trace_ops ph keys vals init_cst ops end.
+  match c with
+  | Case ph keys vals ops => trace_ops false ph keys vals init_cst ops
+  | SCase _ _ ph keys vals ops => trace_ops true ph keys vals init_cst ops
+  end.
